@@ -7,7 +7,7 @@ from symx import text as T
 from .common import Spec, Claims
 
 PROPERTY = "C20"
-BOUNDS = ("token soups over a 26-word vocabulary (keywords, operators, names, numerals, dotted quads, prefixes, truncated quads, empty "
+BOUNDS = ("token soups over a 30-word vocabulary (keywords, operators, names, numerals, dotted quads, prefixes, truncated quads, empty "
           "and whitespace tokens): ALL soups of <=2 tokens and a seeded sample of 3..4 (quick) / 3..5 (thorough) token soups, plus every "
           "truncation and 3 seeded permutations of 12 valid lines, given to 11 constructors on ios/nxos (Port/Protocol also asa) and - "
           "wrapped into sections - to acls/aces/addrgroups; every numeral is SYMBOLIC over [0, 2^40] (out-of-range octets, ports, "
@@ -19,6 +19,7 @@ ASSUMPTIONS = ["only tokens and numerals are symbolic, not characters; the regex
                "constructor rejects or normalises: listed KNOWN-FINDINGS per class"]
 
 VOCAB = ["permit", "deny", "remark", "ip", "tcp", "icmp", "any", "host", "eq", "neq", "gt", "range", "log", "ack", "object-group", "G1",
+         "group-object", "addrgroup", "description", "lt",
          "www", "N", "Q", "Q/24", "Q/N", "N.N.N", "0.0.0.255", "", "  ", "10"]
 VALID = ["10 permit tcp host Q eq N Q 0.0.0.255 range N N ack log", "deny ip any any", "remark some text", "permit udp any gt N any",
          "permit ip object-group G1 any", "20 remark = head", "permit icmp Q/24 any", "deny tcp any neq N host Q",
@@ -39,7 +40,7 @@ def _render(ctx, toks):
             ch = t[i]
             if ch in "NQ":
                 k += 1
-                if ch == "Q" and prev in ("Q", "0.0.0.255") and t == "Q":
+                if ch == "Q" and (prev == "Q" or prev.count(".") == 3) and t == "Q":
                     # the mask of an address is structure (it drives list shapes): a few concrete masks incl. invalid ones
                     pieces.append(ctx.pick(f"mask{k}", ["0.0.0.255", "0.0.1.3", "255.255.255.0", "300.1.1.1", "0.0.0.0"]))
                 elif ch == "Q":
